@@ -61,6 +61,22 @@ def run_childparent(prog, ctx=None):
                     for v in n["vars"]:
                         if v.get("init") is not None:
                             var_src.setdefault(v["id"], []).append(v["init"])
+        # a helper that sets `X->parent = <its parameter>` does so for the argument it is called with
+        for b, i, e in f.elements():
+            if e.get("k") == "call" and e.get("fn"):
+                for g in prog.resolve_call(f, e):
+                    if g.nocfg:
+                        continue
+                    pids = {p["id"]: k for k, p in enumerate(g.params)}
+                    for b2, i2, m in g.walk_all():
+                        if m.get("k") == "bin" and m.get("op") == "=":
+                            l2 = strip(m["a"], lvalue_to_rvalue=False)
+                            r2 = strip(m["b"], all_casts=True)
+                            if l2.get("k") == "mem" and l2.get("f") == "parent" and r2.get("k") == "ref" and r2["d"].get("id") in pids:
+                                k = pids[r2["d"]["id"]]
+                                if k < len(e.get("args", [])):
+                                    at = strip(e["args"][k], all_casts=True)
+                                    parent_stores.append((b.id, norm(show(at, f)), "(in %s)" % g.name))
         for b, i, n, l in sites:
             n_sites += 1
             A = _ptr_text(f, l["b"], l.get("arrow"))
